@@ -9,10 +9,12 @@
 //    B barrier   F for_all(index,value) dump   V for_all(value) dump   C copy-construct array #1 from #0   T n  select target
 //  bag ops (items uint64_t):
 //    i r x  async_insert(x)   t r x d  async_insert(x,d)   v r d x,x,..|-  async_insert(vector,d)
-//    B barrier   D dump (local_for_all order + local_size)   R rebalance   L seed  local_shuffle   G seed  global_shuffle
+//    B barrier   D dump (local_for_all order + local_size)   R rebalance   L seed  local_shuffle   G seed  global_shuffle + barrier
+//    (during R and G every rank prints `snap <vector>` after each message it executes; G prints the ranks it drew as `gdest`)
 //    S swap(bag0,bag1)   T n  select target   g d  gather_to_vector(d)   a  gather_to_vector()   z size()   c clear()
 //  tbag ops:  i r x  insert (prints tag)   V r tag k  async_visit(tag, += k)   X r tag k  async_visit_if_exists
 //    E r tag  async_erase   B barrier   D dump (tag:item:owner, sorted)   g tag,tag,..  all_gather   z size()
+#define HC_OWN_HOOK
 #include "hcommon.hpp"
 #include <ygm/comm.hpp>
 #include <ygm/container/array.hpp>
@@ -26,12 +28,23 @@ typedef uint64_t u64;
 
 struct urbg {  // harness-supplied UniformRandomBitGenerator (the library default seeds from random_device)
   using result_type = uint64_t;
-  hc::rng g;
+  hc::rng g; uint64_t calls = 0;
   explicit urbg(uint64_t s) : g(s) {}
   static constexpr result_type min() { return 0; }
   static constexpr result_type max() { return UINT64_MAX; }
-  result_type operator()() { return g.next(); }
+  result_type operator()() { ++calls; return g.next(); }
 };
+
+// While a rebalance / global_shuffle is in progress, the local vector is recorded after every executed
+// message (hook "ex-" of comm.ipp), so that the interleaving of this rank's pops / swap-out with the
+// arrivals can be read off.
+static ygm::container::bag<u64>* g_snap_bag = nullptr;
+extern "C" void ygm_verif_hook(const char* tag, long, long, long) {
+  if (!g_snap_bag || tag[0] != 'e' || tag[1] != 'x' || tag[2] != '-') return;
+  std::ostringstream o; o << "snap";
+  g_snap_bag->local_for_all([&o](u64& x) { o << " " << x; });
+  hc::out(o.str());
+}
 
 static std::vector<std::vector<std::string>> parse(const char* s) {
   std::vector<std::vector<std::string>> ops;
@@ -118,15 +131,19 @@ static int run_bag(ygm::comm& world, int argc, char** argv) {
         hc::out("lsize " + std::to_string(t.local_size()));
         world.barrier();   // keep the next phase's inserts out of a slower rank's dump
       } break;
-      case 'R': hc::out("rebalance-begin"); t.rebalance(); hc::out("rebalance-end"); break;
+      case 'R': hc::out("rebalance-begin"); g_snap_bag = &t; t.rebalance(); g_snap_bag = nullptr; hc::out("rebalance-end"); break;
       case 'L': { urbg r(U(f[1]) * 1000003ULL + me); t.local_shuffle(r); world.barrier(); } break;
-      case 'G': {
-        // what std::uniform_int_distribution<>(0, size-1) yields for this generator, item by item
+      case 'G': {   // global_shuffle + the barrier that completes it
         urbg r(U(f[1]) * 1000003ULL + me), r2 = r;
-        std::uniform_int_distribution<> distrib(0, world.size() - 1);
-        std::vector<int> d; for (size_t k = 0; k < t.local_size(); ++k) d.push_back(distrib(r2));
-        hc::out(join("gdest", d.begin(), d.end()));
+        hc::out("gshuffle-begin"); g_snap_bag = &t;
         t.global_shuffle(r);
+        world.barrier();
+        g_snap_bag = nullptr;
+        // the ranks std::uniform_int_distribution<>(0, size-1) drew, one per item swapped out: replay the generator
+        std::uniform_int_distribution<> distrib(0, world.size() - 1);
+        std::vector<int> d; while (r2.calls < r.calls) d.push_back(distrib(r2));
+        hc::out(join("gdest", d.begin(), d.end()));
+        hc::out("gshuffle-end");
       } break;
       case 'S': b0.swap(b1); world.barrier(); break;
       case 'g': { auto v = t.gather_to_vector((int)U(f[1])); hc::out(join("gather", v.begin(), v.end())); world.barrier(); } break;
